@@ -177,7 +177,7 @@ def s_wake (ctx, p):
 
 # ---- S3: synchronized() ----------------------------------------------------------------
 def s_sync (ctx, p):
-  st = dict(inside=0, bad=None, fdone=False, steps=0)
+  st = dict(inside=0, bad=None, fdone=False, steps=0, fleft=p.get("threads", 1))
   S, R, sch = setup(ctx, p["threaded"], p["funcs"], lambda: not st["fdone"], p.get("opcode"), p.get("rotate"), real_pinger=p.get("real_pinger", False),
                     via_core=p.get("via_core", False))
   class Worker (R.BaseTask):
@@ -198,7 +198,7 @@ def s_sync (ctx, p):
         S.point("in-section-2")
         st["inside"] -= 1
     st["fdone"] = True
-  S.spawn(foreign, name="F0")
+  for i in range(p.get("threads", 1)): S.spawn(foreign, name="F%d" % i)
   v = finish(S)
   if st["bad"]: return ("sync:task-ran-in-section", st["bad"]), st["steps"]
   if v: return ("sync:" + v[0], v[1]), st["steps"]
@@ -261,6 +261,8 @@ def configs (quick):
         cs.append(dict(base, bound=2, reyield=3))
       if name == "sync":
         cs.append(dict(base, bound=2, via_core=True))
+        # two foreign threads competing for the section
+        cs.append(dict(base, bound=2, threads=2, rounds=1))
       if name == "calllater":
         cs.append(dict(base, bound=2, raiser="sysexit"))
         if not quick: cs.append(dict(base, bound=2, raiser="exc", calls=3))
@@ -299,7 +301,7 @@ def cfg_name (c):
                              ("/via-schedule" if c.get("via") else "") + ("/reyield" if c.get("reyield") else "")
                              + ("/real-pinger" if c.get("real_pinger") else "") + ("/raiser-" + c["raiser"] if c.get("raiser") else "")
                              + ("/via-core" if c.get("via_core") else "") + ("/calls%d" % c["calls"] if c.get("calls", 0) > 3 else "")
-                             + ("/failing-tasks" if c.get("bad") else ""))
+                             + ("/failing-tasks" if c.get("bad") else "") + ("/2-foreign-threads" if c.get("scen") == "sync" and c.get("threads", 1) > 1 else ""))
 
 
 def _worker (item):
